@@ -60,6 +60,13 @@ TRANSLATED = [
     'pyramid/config/views.py:MultiView.__call__', 'pyramid/config/views.py:predicated_view',
     'pyramid/config/views.py:predicated_view.predicate_wrapper', 'pyramid/config/views.py:predicated_view.checker',
     'pyramid/config/predicates.py:PredicateList.make',
+] + ['pyramid/predicates.py:%s.text' % c for c in (
+    'XHRPredicate', 'RequestMethodPredicate', 'PathInfoPredicate', 'RequestParamPredicate', 'HeaderPredicate',
+    'AcceptPredicate', 'ContainmentPredicate', 'MatchParamPredicate', 'PhysicalPathPredicate', 'IsAuthenticatedPredicate')
+] + ['pyramid/predicates.py:RequestMethodPredicate.__init__', 'pyramid/predicates.py:RequestParamPredicate.__init__',
+     'pyramid/predicates.py:HeaderPredicate.__init__', 'pyramid/predicates.py:PhysicalPathPredicate.__init__',
+     'pyramid/predicates.py:MatchParamPredicate.__init__',
+     'pyramid/predicates.py:CustomPredicate.phash', 'pyramid/predicates.py:Notted._notted_text', 'pyramid/predicates.py:Notted.phash',
 ] + ['pyramid/predicates.py:%s.__call__' % c for c in (
     'XHRPredicate', 'RequestMethodPredicate', 'PathInfoPredicate', 'RequestParamPredicate', 'HeaderPredicate',
     'AcceptPredicate', 'ContainmentPredicate', 'MatchParamPredicate', 'PhysicalPathPredicate',
@@ -79,7 +86,7 @@ BASE_COQ = {'bool': 'bool', 'text': 'text', 'Z': 'Z', 'tag': 'N', 'iface': 'N', 
             'comp': 'component', 'result': 'result', 'pred': 'pred', 'offer': 'offer', 'vtype': 'vtype', 'unit': 'unit',
             'kvo': 'text * option text', 'kv': 'text * text', 'ifpair': 'N * N', 'offerq': 'offer', 'nval': 'bool * pval',
             'pval': 'pval', 'made': 'made', 'request': 'request', 'namefac': 'text', 'call': 'request -> option N', 'loc': 'text * list N',
-            'key2': 'Z * Z', 'kwargs': 'kwargs', 'rawvals': 'list (bool * pval)', 'digest': 'text', 'triple': 'Z * list pred * text', 'hdr3': 'text * option text', 'regex': 'text'}
+            'key2': 'Z * Z', 'kwargs': 'kwargs', 'rawvals': 'list (bool * pval)', 'digest': 'text', 'triple': 'Z * list pred * text', 'hdr3': 'text * option text', 'hdr3t': 'text * option text', 'split2': 'option (text * text)', 'regex': 'text'}
 
 
 def coqty(t):
@@ -151,6 +158,15 @@ class MOpt(Term):
         return ('MOpt', self.scrut.key(), self.none.key(), self.var, self.some.key())
 
 
+class MPval(Term):
+    """dispatch on the dynamic type of a predicate value: a tuple / list of str, a str, anything else"""
+    def __init__(self, scrut, lvar, lterm, svar, sterm, other):
+        self.scrut, self.lvar, self.lterm, self.svar, self.sterm, self.other = scrut, lvar, lterm, svar, sterm, other
+
+    def key(self):
+        return ('MPval', self.scrut.key(), self.lvar, self.lterm.key(), self.svar, self.sterm.key(), self.other.key())
+
+
 class Loop:
     def __init__(self, n, elem_ty, ret_ty):
         self.n = n
@@ -175,6 +191,15 @@ class Jump(Term):
 
     def key(self):
         return ('Jump', self.loop.n) + tuple(a.key() for a in self.args)
+
+
+EMPTY_TEXT = '(@nil N)'
+
+
+def text_lit(sv):
+    if any(ord(c) > 0x10ffff for c in sv):
+        raise Problem('string literal outside the subset')
+    return '[%s]%%N' % '; '.join(str(ord(c)) for c in sv) if sv else EMPTY_TEXT
 
 
 # ------------------------------------------------------------------ conditions (as in c11)
@@ -232,6 +257,8 @@ def simplify(t, known):
         return a if a.key() == b.key() else If(t.atom, a, b)
     if isinstance(t, MOpt):
         return MOpt(t.scrut, simplify(t.none, known), t.var, simplify(t.some, known))
+    if isinstance(t, MPval):
+        return MPval(t.scrut, t.lvar, simplify(t.lterm, known), t.svar, simplify(t.sterm, known), t.other)
     if isinstance(t, Fix):
         return Fix(t.loop, simplify(t.nil, known), simplify(t.cons, known), t.it, t.init)
     return t
@@ -257,6 +284,10 @@ def render(t, ind):
     if isinstance(t, MOpt):
         return 'match %s with\n%s| None =>%s\n%s| Some %s =>%s\n%send' % (
             render(t.scrut, ind), sp, render_in(t.none, ind + 4), sp, t.var, render_in(t.some, ind + 4), sp)
+    if isinstance(t, MPval):
+        return 'match %s with\n%s| VTexts %s =>%s\n%s| VText %s =>%s\n%s| _ =>%s\n%send' % (
+            render(t.scrut, ind), sp, t.lvar, render_in(t.lterm, ind + 4), sp, t.svar, render_in(t.sterm, ind + 4), sp,
+            render_in(t.other, ind + 4), sp)
     if isinstance(t, Fix):
         lp = t.loop
         bind = '(%s : list (%s))' % (lp.l, coqty(lp.elem_ty))
@@ -273,7 +304,7 @@ def render(t, ind):
 
 def render_in(t, ind):
     s = render(t, ind)
-    if isinstance(t, (If, MOpt, Fix)):
+    if isinstance(t, (If, MOpt, Fix, MPval)):
         return '\n' + ' ' * ind + s
     return ' ' + s
 
@@ -295,6 +326,7 @@ PROJ = {
     'hdr3': [('fst', 'text'), ('snd', OPT('regex')), (ERASED, ERASED)],   # HeaderPredicate.val: (name, compiled regex or None, source);
                                                                           # a compiled regex is identified with its pattern text     # itertools.product of the two resolution orders
     'offerq': [(None, 'offer'), (ERASED, ERASED)],      # acceptable_offers yields (offer, quality); the model keeps the offers
+    'hdr3t': [('fst', 'text'), (ERASED, ERASED), ('snd', OPT('text'))],   # the same triples read by text(): (name, _, source of the regex or None)
     'namefac': [(None, 'text'), (ERASED, 'factory')],   # sorter.sorted() yields (name, factory); the model looks the factory up by name
 }
 
@@ -367,6 +399,8 @@ class FnTranslator:
         self.nested = {st.name: st for st in fn.body if isinstance(st, ast.FunctionDef)}
 
         def k_end(env2):
+            if 'end_fn' in spec:
+                return spec['end_fn'](env2)
             if 'end' in spec:
                 return spec['end']
             raise Problem('control can reach the end of the function without a return')
@@ -432,6 +466,35 @@ class FnTranslator:
             env2[s.targets[0].id] = (A('assoc', [ko, dobj]), OPT('rawvals'))
             env2[dn] = (A('kw_del', [ko, dobj]), 'kwargs')
             return k_next(env2)
+        if self.spec.get('strings') and isinstance(s, ast.Assign) and len(s.targets) == 1 \
+                and isinstance(s.targets[0], ast.Tuple) and isinstance(s.value, ast.Call) \
+                and isinstance(s.value.func, ast.Attribute) and s.value.func.attr == 'split':
+            # a, b = X.split(c, 1): two parts when c occurs in X, else ValueError (too few values to unpack)
+            c = s.value
+            tg = s.targets[0]
+            if len(tg.elts) != 2 or not all(isinstance(e, ast.Name) for e in tg.elts) or c.keywords or len(c.args) != 2 \
+                    or not (isinstance(c.args[0], ast.Constant) and isinstance(c.args[0].value, str) and len(c.args[0].value) == 1) \
+                    or not (isinstance(c.args[1], ast.Constant) and c.args[1].value == 1) or 'raise_value' not in self.spec:
+                raise Problem('split unpacking outside the subset: %s' % u(s))
+            xo, xt = self.term(c.func.value, env)
+            if xt != 'text':
+                raise Problem('split of a %s' % xt)
+            binder = self.fresh('kv')
+            env2 = dict(env)
+            env2[tg.elts[0].id] = (A('fst', [V(binder)]), 'text')
+            env2[tg.elts[1].id] = (A('snd', [V(binder)]), 'text')
+            return MOpt(A('split1', [K('%d%%N' % ord(c.args[0].value)), xo]), self.spec['raise_value'], binder, k_next(env2))
+        if self.spec.get('strings') and isinstance(s, ast.Assign) and len(s.targets) == 1 \
+                and isinstance(s.value, (ast.ListComp, ast.GeneratorExp)) and 'raise_value' in self.spec:
+            obj, ty = self.term(s.value, env)
+            if ty.startswith('mayraise:'):
+                binder = self.fresh('r')
+                fake = ast.Assign(targets=s.targets, value=ast.Name(id='__mayraise_value__', ctx=ast.Load()))
+                env2 = dict(env)
+                env2['__mayraise_value__'] = (V(binder), ty[len('mayraise:'):])
+                env3 = self.assign(fake, env2)
+                env3.pop('__mayraise_value__', None)
+                return MOpt(obj, self.spec['raise_value'], binder, k_next(env3))
         if isinstance(s, ast.Assign):
             return k_next(self.assign(s, env))
         if isinstance(s, ast.Expr):
@@ -504,6 +567,18 @@ class FnTranslator:
                 return self.if_(first, inner, orelse, env, k_next, jumps)
             inner = [ast.If(test=more, body=body, orelse=orelse)]
             return self.if_(first, body, inner, env, k_next, jumps)
+        if self.spec.get('strings') and isinstance(test, ast.Call) and isinstance(test.func, ast.Name) \
+                and test.func.id == 'is_nonstr_iter' and len(test.args) == 1 and isinstance(test.args[0], ast.Name) \
+                and env.get(test.args[0].id, (None, ''))[1] == 'pval' and 'raise_value' in self.spec:
+            # util.is_nonstr_iter (pinned): false for a str, true for a tuple / list; predicate values of any other dynamic
+            # type are outside what this factory is given (the model's factory answers None for them)
+            nm = test.args[0].id
+            lv, sv = self.fresh('pl'), self.fresh('ps')
+            env_l, env_s = dict(env), dict(env)
+            env_l[nm] = (V(lv), LIST('text'))
+            env_s[nm] = (V(sv), 'text')
+            return MPval(env[nm][0], lv, self.block(body, env_l, k_next, jumps), sv, self.block(orelse, env_s, k_next, jumps),
+                         self.spec['raise_value'])
         ot = self.opt_test(test, env)
         if ot is not None:
             name, obj, ty, is_none = ot
@@ -562,6 +637,8 @@ class FnTranslator:
                 and isinstance(t.operand.func, ast.Name) and t.operand.func.id in ('isinstance', 'is_nonstr_iter'):
             c = t.operand
             v = c.args[0].id if c.args and isinstance(c.args[0], ast.Name) else None
+            if c.func.id == 'is_nonstr_iter' and v in env and env[v][1] == 'pval':
+                return None                          # a dispatch on the dynamic type of a predicate value: see if_()
             asg = s.body[0] if len(s.body) == 1 and not s.orelse else None
             if v is None or v not in env or not isinstance(asg, ast.Assign) or len(asg.targets) != 1 \
                     or u(asg.targets[0]) != v or not isinstance(asg.value, (ast.Tuple, ast.List)) \
@@ -585,6 +662,11 @@ class FnTranslator:
         if s.orelse or s.finalbody or len(s.handlers) != 1:
             raise Problem('try statement outside the subset')
         h = s.handlers[0]
+        if u(h.type) in self.spec.get('catch_unmodelled', ()) and self.ends_in_raise(list(h.body)) \
+                and not any(isinstance(n, ast.Call) and self.may_raise(n, env) for st in s.body for n in ast.walk(st)):
+            # e.g. `try: v = re.compile(s) except re.error: raise ConfigurationError(..)`: a pattern that does not compile is a
+            # configuration-time error (ASSUMPTIONS: the patterns are valid); the body is translated, the handler only raises
+            return self.block(list(s.body) , env, k_next, jumps)
         if not (isinstance(h.type, ast.Name) and h.type.id in self.spec.get('catch', ())):
             raise Problem('except clause outside the table: %s' % u(h).split('\n')[0])
         calls = [n for st in s.body for n in ast.walk(st) if isinstance(n, ast.Call) and self.may_raise(n, env)]
@@ -623,6 +705,12 @@ class FnTranslator:
             for e, v in zip(tg.elts, vals):
                 env[e.id] = v
             return env
+        if isinstance(tg, ast.Attribute) and isinstance(tg.value, ast.Name) and tg.value.id in env \
+                and env[tg.value.id][1] == 'selfinit':
+            obj, ty = self.term(s.value, env)              # a field of the object under construction
+            env = dict(env)
+            env['self.' + tg.attr] = (obj, ty.replace('own:', ''))
+            return env
         if not isinstance(tg, ast.Name):
             raise Problem('assignment target outside the subset: %s' % u(s))
         if isinstance(s.value, ast.Constant) and s.value.value is None:
@@ -649,6 +737,20 @@ class FnTranslator:
             raise Problem('method call on an unbound name: %s' % u(s))
         sobj, sty = env[name]
         aobj, aty = self.expr(c.args[0], env)
+        if aty == TUPLE and self.spec.get('pair_as') == 'kvo' and len(aobj) == 2 and aobj[0][1] == 'text' \
+                and aobj[1][1] in ('text', NONE):
+            # (k, v) with v a str or None: the model's (key, value or None) pair
+            aobj, aty = A('pair', [aobj[0][0], K('None') if aobj[1][1] == NONE else A('Some', [aobj[1][0]])]), 'kvo'
+        if aty == TUPLE and self.spec.get('pair_as') == 'hdr' and len(aobj) == 3 and aobj[0][1] == 'text':
+            # (name, compiled regex or None, its source or None): a compiled regex is identified with its pattern text, so the
+            # model keeps (name, source or None); the two must be the same text (or both None)
+            (vo, vt), (so, st) = aobj[1], aobj[2]
+            if (vt, st) == (NONE, NONE):
+                aobj, aty = A('pair', [aobj[0][0], K('None')]), 'kvo'
+            elif (vt, st) == ('regex', 'text') and vo.key() == so.key():
+                aobj, aty = A('pair', [aobj[0][0], A('Some', [so])]), 'kvo'
+            else:
+                raise Problem('header triple outside the table: %s' % u(s))
         env = dict(env)
         if meth == 'update' and sty == 'digest':        # sha256 modelled by its input: update = append
             if aty != 'text':
@@ -855,7 +957,13 @@ class FnTranslator:
             if isinstance(n.value, int):
                 return K('(%d)%%Z' % n.value), 'Z'
             if isinstance(n.value, str):
+                if self.spec.get('strings'):
+                    return K(text_lit(n.value)), 'text'
                 return None, ERASED
+        if self.spec.get('strings'):
+            got = self.string_expr(n, env)
+            if got is not None:
+                return got
         if isinstance(n, ast.List) and not n.elts:
             return K('nil'), 'own:list:?'
         if isinstance(n, ast.Tuple):
@@ -894,6 +1002,170 @@ class FnTranslator:
             return self.call(n, env)
         raise Problem('expression outside the table: %s' % u(n))
 
+    # ------------------------------------------------------------ string building (text() / phash() / constructors)
+    def fmt_value(self, n, env, conv, whole):
+        """the text a value contributes to a %s / {} / {!r} / %r slot"""
+        obj, ty = self.term(n, env)
+        if ty == 'rawhash':
+            ty = 'text'
+        if ty == 'text' and conv == 's':
+            return obj                                   # str(s) is s
+        if ty == 'bool':
+            return A('bool_text', [obj])                 # str(True) = repr(True) = 'True'
+        if ty == 'objstr' and conv == 's':
+            return obj                                   # str() of a class / interface: oracle text shipped with the value
+        if ty == 'strtuple' and conv == 's':
+            return A('repr_tuple', [obj])                # str() of a tuple of plain str (ASSUMPTIONS: plain names)
+        if ty == 'hashint':
+            return A('dec', [obj])                       # str / repr of a non-negative int: decimal digits
+        raise Problem('formatting a %s with conversion %s is outside the table: %s' % (ty, conv, u(whole)))
+
+    def concat(self, parts):
+        parts = [p for p in parts if not (isinstance(p, K) and p.text == EMPTY_TEXT)]
+        if not parts:
+            return K(EMPTY_TEXT)
+        out = parts[-1]
+        for p_ in reversed(parts[:-1]):
+            out = A('app', [p_, out])
+        return out
+
+    def template(self, lit, slot_re, n, args, env):
+        """a literal with conversion slots and the values that fill them, left to right"""
+        import re as _re
+        pieces = _re.split(slot_re, lit)
+        convs = _re.findall(slot_re, lit)
+        if len(convs) != len(args) or any('%' in x or '{' in x or '}' in x for x in pieces):
+            raise Problem('format string outside the subset: %s' % u(n))
+        parts = []
+        for i, piece in enumerate(pieces):
+            if piece:
+                parts.append(K(text_lit(piece)))
+            if i < len(args):
+                parts.append(self.fmt_value(args[i], env, {'%s': 's', '%r': 'r', '{}': 's', '{!r}': 'r', '{!s}': 's'}[convs[i]], n))
+        return self.concat(parts), 'text'
+
+    def comprehension(self, n, env):
+        if len(n.generators) != 1 or n.generators[0].ifs or n.generators[0].is_async:
+            raise Problem('comprehension outside the subset: %s' % u(n))
+        g = n.generators[0]
+        lo, lt = self.expr(g.iter, env)
+        if lt.startswith('own:'):
+            lt = lt[4:]
+        if not lt.startswith('list:'):
+            raise Problem('comprehension over a %s: %s' % (lt, u(n)))
+        el = lt[5:]
+        x = self.fresh('x_c')
+        env2 = dict(env)
+        if isinstance(g.target, ast.Tuple) and el == 'split2' and len(g.target.elts) == 2 \
+                and all(isinstance(e, ast.Name) for e in g.target.elts):
+            # for a, b in <list of s.split(c, 1) results>: a piece list with one element is a ValueError (too few values)
+            b = self.fresh('kv')
+            env2[g.target.elts[0].id] = (A('fst', [V(b)]), 'text')
+            env2[g.target.elts[1].id] = (A('snd', [V(b)]), 'text')
+            bo, bt = self.term(n.elt, env2)
+            if bt == TUPLE and [t for _, t in bo] == ['text', 'text']:
+                bo, bt = A('pair', [bo[0][0], bo[1][0]]), 'kv'
+            if bt in (ERASED, TUPLE, NONE):
+                raise Problem('comprehension of %s values: %s' % (bt, u(n)))
+            return A('map_opt', [Lam(x, el, MOpt(V(x), K('None'), b, A('Some', [bo]))), lo]), 'mayraise:' + LIST(bt)
+        if isinstance(g.target, ast.Name):
+            env2[g.target.id] = (V(x), el)
+        elif isinstance(g.target, ast.Tuple) and el in PROJ and len(g.target.elts) == len(PROJ[el]) \
+                and all(isinstance(e, ast.Name) for e in g.target.elts):
+            for e, (pr, ty) in zip(g.target.elts, PROJ[el]):
+                env2[e.id] = (None, ERASED) if pr == ERASED else (V(x) if pr is None else A(pr, [V(x)]), ty)
+        else:
+            raise Problem('comprehension target outside the table: %s' % u(n))
+        bo, bt = self.term(n.elt, env2)
+        if bt in (ERASED, TUPLE, NONE):
+            raise Problem('comprehension of %s values: %s' % (bt, u(n)))
+        return A('map', [Lam(x, el, bo), lo]), LIST(bt)
+
+    def string_expr(self, n, env):
+        if isinstance(n, ast.JoinedStr):
+            parts = []
+            for v in n.values:
+                if isinstance(v, ast.Constant) and isinstance(v.value, str):
+                    if v.value:
+                        parts.append(K(text_lit(v.value)))
+                elif isinstance(v, ast.FormattedValue) and v.format_spec is None and v.conversion in (-1, 114, 115):
+                    parts.append(self.fmt_value(v.value, env, 'r' if v.conversion == 114 else 's', n))
+                else:
+                    raise Problem('f-string part outside the subset: %s' % u(n))
+            return self.concat(parts), 'text'
+        if isinstance(n, ast.BinOp) and isinstance(n.op, ast.Mod) and isinstance(n.left, ast.Constant) \
+                and isinstance(n.left.value, str):
+            args = list(n.right.elts) if isinstance(n.right, ast.Tuple) else [n.right]
+            return self.template(n.left.value, r'%[sr]', n, args, env)
+        if isinstance(n, ast.BinOp) and isinstance(n.op, ast.Add):
+            (lo, lt), (ro, rt) = self.term(n.left, env), self.term(n.right, env)
+            if lt == 'text' and rt == 'text':
+                return self.concat([lo, ro]), 'text'
+            if lt == LIST('text') and rt == LIST('text'):
+                return A('app', [lo, ro]), LIST('text')           # tuple + tuple
+            if lt == TUPLE and rt == LIST('text') and all(t == 'text' for _, t in lo):
+                out = ro
+                for o, _ in reversed(lo):
+                    out = A('cons', [o, out])
+                return out, LIST('text')                          # ('lit', ..) + tuple
+            if lt == LIST('text') and rt == TUPLE and all(t == 'text' for _, t in ro):
+                out = K('nil')
+                for o, _ in reversed(ro):
+                    out = A('cons', [o, out])
+                return A('app', [lo, out]), LIST('text')          # tuple + ('lit', ..)
+            return None
+        if isinstance(n, ast.Subscript) and isinstance(n.slice, ast.Slice) and n.slice.upper is None and n.slice.step is None \
+                and isinstance(n.slice.lower, ast.Constant) and n.slice.lower.value == 1:
+            xo, xt = self.term(n.value, env)
+            if xt == 'text':
+                return A('tl', [xo]), 'text'                      # s[1:]
+            return None
+        if isinstance(n, ast.Call) and isinstance(n.func, ast.Attribute) and not n.keywords \
+                and n.func.attr in ('strip', 'startswith', 'split'):
+            xo, xt = self.term(n.func.value, env)
+            if xt != 'text':
+                return None
+            if n.func.attr == 'strip' and not n.args:
+                return A('strip_ws', [xo]), 'text'                # str.strip(): characters with str.isspace()
+            if n.func.attr == 'startswith' and len(n.args) == 1 and isinstance(n.args[0], ast.Constant) \
+                    and isinstance(n.args[0].value, str):
+                return A('starts_with', [K(text_lit(n.args[0].value)), xo]), 'bool'
+            if n.func.attr == 'split' and len(n.args) == 2 and isinstance(n.args[0], ast.Constant) \
+                    and isinstance(n.args[0].value, str) and len(n.args[0].value) == 1 \
+                    and isinstance(n.args[1], ast.Constant) and n.args[1].value == 1:
+                # s.split(c, 1) kept as a value: two pieces when c occurs (Some (before, after)), else one piece (None)
+                return A('split1', [K('%d%%N' % ord(n.args[0].value)), xo]), 'split2'
+            if n.func.attr == 'split' and len(n.args) == 1 and isinstance(n.args[0], ast.Constant) \
+                    and isinstance(n.args[0].value, str) and len(n.args[0].value) == 1:
+                return A('split_on', [K('%d%%N' % ord(n.args[0].value)), xo]), LIST('text')   # s.split('c'): every piece
+            raise Problem('str method outside the table: %s' % u(n))
+        if isinstance(n, (ast.ListComp, ast.GeneratorExp)):
+            return self.comprehension(n, env)
+        if isinstance(n, ast.IfExp):
+            # `a if y else b` with y a possibly-None str: in the true branch y is a non-empty str
+            env_t = env
+            if isinstance(n.test, ast.Name) and n.test.id in env and env[n.test.id][1] == OPT('text'):
+                env_t = dict(env)
+                env_t[n.test.id] = (A('opt_text_get', [env[n.test.id][0]]), 'text')
+            c = self.cond(n.test, env)
+            (to, tt), (eo, et) = self.term(n.body, env_t), self.term(n.orelse, env)
+            if tt != et:
+                raise Problem('conditional expression with branches of types %s / %s: %s' % (tt, et, u(n)))
+            if c[0] == 'const':
+                return (to if c[1] else eo), tt
+            return If(b_term(c), to, eo), tt
+        if isinstance(n, ast.Call) and isinstance(n.func, ast.Attribute) and isinstance(n.func.value, ast.Constant) \
+                and isinstance(n.func.value.value, str) and not n.keywords:
+            lit = n.func.value.value
+            if n.func.attr == 'join' and len(n.args) == 1:
+                lo, lt = self.expr(n.args[0], env)
+                if lt.replace('own:', '') != LIST('text'):
+                    raise Problem('join of a %s: %s' % (lt, u(n)))
+                return A('join', [K(text_lit(lit)), lo]), 'text'      # sep.join(l)
+            if n.func.attr == 'format':
+                return self.template(lit, r'\{(?:![rs])?\}', n, list(n.args), env)
+        return None
+
     def binop(self, n, env):
         lo, lt = self.term(n.left, env)
         ro, rt = self.term(n.right, env)
@@ -924,6 +1196,9 @@ class FnTranslator:
         elif isinstance(op, (ast.In, ast.NotIn)):
             if lt == 'text' and rt == LIST('text'):
                 b = b_atom(A('mem_text', [lo, ro]))
+            elif lt == 'text' and rt == 'text' and isinstance(l, ast.Constant) and isinstance(l.value, str) \
+                    and len(l.value) == 1:                    # 'c' in s : the character occurs
+                b = b_atom(A('memN', [K('%d%%N' % ord(l.value)), ro]))
             elif lt == 'text' and rt == 'headers':            # name in request.headers
                 b = b_atom(A('header_present', [RQ, lo]))
         elif isinstance(op, (ast.Is, ast.IsNot)):
@@ -964,7 +1239,7 @@ class FnTranslator:
                     vo, vt = A('snd', [vo]), 'pval'
                 if vt != 'pval':
                     raise Problem('factory applied to a %s' % vt)
-                return A('factory', [obj, vo]), OPT('pred')
+                return A('gen_factory', [obj, vo]), OPT('pred')
             if ty == 'registered':
                 return self.call_registered(n, obj, env)
             raise Problem('call of a %s: %s' % (ty, u(n)))
@@ -979,6 +1254,12 @@ class FnTranslator:
                 raise Problem('predicate called with unexpected arguments: %s' % u(n))
             return (A('eval_pred', [RQ, obj]), 'bool') if ty == 'pred' else (A('custom_truth', [RQ, obj]), 'bool')
         if isinstance(f, ast.Attribute):
+            if self.spec.get('strings') and isinstance(f.value, ast.Name) and f.value.id == 're' and f.attr == 'compile' \
+                    and len(args) == 1 and not n.keywords and f.value.id not in env:
+                ao, at = self.term(args[0], env)
+                if at != 'text':
+                    raise Problem('re.compile of a %s' % at)
+                return ao, 'regex'                   # a compiled pattern is identified with its source text (oracle: q_regex)
             if isinstance(f.value, ast.Name) and f.value.id == 'itertools' and f.attr == 'product' and len(args) == 2:
                 (ao, at), (bo, bt) = self.expr(args[0], env), self.expr(args[1], env)
                 if (at, bt) != (LIST('iface'), LIST('iface')):
@@ -1094,8 +1375,17 @@ def _m_sorted(tr, n, oobj, env):             # self.sorter.sorted(): the registe
     return V('names'), LIST('namefac')
 
 
-def _m_phash(tr, n, oobj, env):              # pred.phash(): the model's pred_phash (one text)
-    return A('pred_phash', [oobj]), 'rawhash'
+def _m_phash(tr, n, oobj, env):              # pred.phash(): the phash()/text() of the predicate's class (glue gen_pred_phash; inside
+    return A(tr.spec.get('phash_fn', 'pred_phash'), [oobj]), 'rawhash'   # Notted.phash the inner call stays the model's pred_phash)
+
+
+def _m_notted_text(tr, n, oobj, env):        # self._notted_text(val) of a Notted
+    if len(n.args) != 1 or n.keywords:
+        raise Problem('_notted_text(..): %s' % u(n))
+    ao, at = tr.term(n.args[0], env)
+    if at not in ('text', 'rawhash'):
+        raise Problem('_notted_text of a %s' % at)
+    return A('gen_notted_text', [ao]), 'text'
 
 
 def _m_hexdigest(tr, n, oobj, env):          # sha256 modelled as injective: the digest is represented by its input
@@ -1105,6 +1395,7 @@ def _m_hexdigest(tr, n, oobj, env):          # sha256 modelled as injective: the
 METHODS = {
     ('sorter', 'sorted'): _m_sorted,
     ('selfnot', 'phash'): _m_self_phash,
+    ('selfnot', '_notted_text'): _m_notted_text,
     ('pred', 'phash'): _m_phash,
     ('digest', 'hexdigest'): _m_hexdigest,
     ('mv', 'get_views'): _m_get_views,
@@ -1195,6 +1486,36 @@ def _c_sha256(tr, n, env):
     return K('nil'), 'digest'
 
 
+def _c_hash(tr, n, env):                     # hash(self.func): a custom predicate is identified by its hash (Model: PCustom id)
+    oo, ot = tr.expr(n.args[0], env)
+    if len(n.args) != 1 or n.keywords or ot != 'customfn':
+        raise Problem('hash(..) outside the table: %s' % u(n))
+    return oo, 'hashint'
+
+
+def _c_as_sorted_tuple(tr, n, env):          # util.as_sorted_tuple (pinned): a str becomes a 1-tuple (done by the glue: as_tuple), then sorted
+    oo, ot = tr.term(n.args[0], env)
+    if len(n.args) != 1 or n.keywords or ot.replace('own:', '') != LIST('text'):
+        raise Problem('as_sorted_tuple outside the table: %s' % u(n))
+    return A('sorted_texts', [oo]), LIST('text')
+
+
+def _c_tuple(tr, n, env):                    # tuple(l) of a tuple / list of str: the same sequence
+    oo, ot = tr.term(n.args[0], env)
+    if len(n.args) != 1 or n.keywords or ot.replace('own:', '') != LIST('text'):
+        raise Problem('tuple(..) outside the table: %s' % u(n))
+    return oo, LIST('text')
+
+
+def _c_filter(tr, n, env):                   # filter(None, l): the truthy (= non-empty) strings of l
+    if len(n.args) != 2 or n.keywords or not (isinstance(n.args[0], ast.Constant) and n.args[0].value is None):
+        raise Problem('filter(..) outside the table: %s' % u(n))
+    oo, ot = tr.term(n.args[1], env)
+    if ot.replace('own:', '') != LIST('text'):
+        raise Problem('filter over a %s' % ot)
+    return A('filter', [K('nonempty'), oo]), LIST('text')
+
+
 def _c_erased(tr, n, env):
     return None, ERASED
 
@@ -1237,7 +1558,8 @@ def _c_rpt(tr, n, env):                      # traversal.resource_path_tuple (pi
 
 CALLS = {'find_interface': _c_find_interface, 'resource_path_tuple': _c_rpt, 'sha256': _c_sha256, 'PredicateInfo': _c_erased, 'Notted': _c_notted, 'bytes_': _c_bytes,
          'isinstance': _c_isinstance, 'hasattr': _c_hasattr, 'getattr': _c_getattr, '_find_views': _c_find_views, 'all': _c_all, 'bool': _c_bool,
-         'len': _c_len}
+         'len': _c_len, 'hash': _c_hash, 'as_sorted_tuple': _c_as_sorted_tuple, 'tuple': _c_tuple,
+         'filter': _c_filter}
 
 
 # ------------------------------------------------------------------ the translated functions
@@ -1331,7 +1653,7 @@ FUNCS.append(dict(
     file='pyramid/config/predicates.py', qual='PredicateList.make', gen='gen_make',
     sig='(names : list text) (kw : kwargs) : option (Z * list pred * text)', ret=OPT('triple'),
     params=[(None, 'plist'), (None, ERASED)], kwarg=(V('kw'), 'kwargs'), ret_conv=_conv_make, listcomp_ok=True,
-    error_branch_erased=True, propagate=K('None'), **{'raise': {'ConfigurationError': K('None')}}))
+    error_branch_erased=True, propagate=K('None'), phash_fn='gen_pred_phash', **{'raise': {'ConfigurationError': K('None')}}))
 
 def _pred(cls, gen, sig, attrs, selfty='self'):
     return dict(file='pyramid/predicates.py', qual=cls + '.__call__', gen=gen, sig=sig + ' (rq : request) : bool', ret='bool',
@@ -1356,7 +1678,88 @@ _PRED_FUNCS = [
 ]
 
 
-FUNCS = _PRED_FUNCS + [dict(glue='''(* GLUE (table): calling a predicate object runs the __call__ of its class (the constructor of the model's [pred]);
+def _text(cls, meth, gen, sig, attrs, selfty='self', extra=()):
+    return dict(file='pyramid/predicates.py', qual='%s.%s' % (cls, meth), gen=gen, sig=sig + ' : text', ret='text',
+                params=[(V('p') if selfty == 'selfnot' else None, selfty)] + list(extra), selfattrs={selfty: attrs},
+                ret_conv=lambda obj, t: (b_term(obj) if isinstance(obj, tuple) else obj) if t in ('text', 'rawhash') else None,
+                strings=True, listcomp_ok=True)
+
+
+# text() of the stock predicate classes (their phash() is the same function: `phash = text`, CLASS_HEADERS), the phash() of
+# CustomPredicate and of Notted: the identity of a registration inside its slot is the digest of these texts
+_TEXT_FUNCS = [
+    _text('XHRPredicate', 'text', 'gen_text_xhr', '(b : bool)', {'val': (V('b'), 'bool')}),
+    _text('RequestMethodPredicate', 'text', 'gen_text_request_method', '(vals : list text)', {'val': (V('vals'), LIST('text'))}),
+    _text('PathInfoPredicate', 'text', 'gen_text_path_info', '(orig : text)', {'orig': (V('orig'), 'text')}),
+    _text('RequestParamPredicate', 'text', 'gen_text_request_param', '(reqs : list (text * option text))',
+          {'reqs': (V('reqs'), LIST('kvo'))}),
+    _text('HeaderPredicate', 'text', 'gen_text_header', '(vals : list (text * option text))', {'val': (V('vals'), LIST('hdr3t'))}),
+    _text('AcceptPredicate', 'text', 'gen_text_accept', '(values : list text)', {'values': (V('values'), LIST('text'))}),
+    _text('ContainmentPredicate', 'text', 'gen_text_containment', '(s : text)', {'val': (V('s'), 'objstr')}),
+    _text('MatchParamPredicate', 'text', 'gen_text_match_param', '(reqs : list (text * text))', {'reqs': (V('reqs'), LIST('kv'))}),
+    _text('PhysicalPathPredicate', 'text', 'gen_text_physical_path', '(val : list text)', {'val': (V('val'), 'strtuple')}),
+    _text('IsAuthenticatedPredicate', 'text', 'gen_text_is_authenticated', '(b : bool)', {'val': (V('b'), 'bool')}),
+    _text('CustomPredicate', 'phash', 'gen_phash_custom', '(i : N)', {'func': (V('i'), 'customfn')}),
+    _text('Notted', '_notted_text', 'gen_notted_text', '(val : text)', {}, selfty='selfnt', extra=[(V('val'), 'text')]),
+    _text('Notted', 'phash', 'gen_phash_not', '(p : pred)', {'predicate': (V('p'), 'pred')}, selfty='selfnot'),
+    dict(glue='''(* GLUE (table): phash() of a predicate object is the phash of its class (for the stock classes `phash = text`:
+   class-level statement lists are checked); a third-party predicate brings its own text; the inner call of Notted.phash
+   stays pred_phash *)
+Definition gen_pred_phash (p : pred) : text :=
+  match p with
+  | PXhr v => gen_text_xhr v
+  | PMethod vals => gen_text_request_method vals
+  | PPathInfo o => gen_text_path_info o
+  | PParam reqs => gen_text_request_param reqs
+  | PHeader vals => gen_text_header vals
+  | PAccept values => gen_text_accept values
+  | PContainment _ s => gen_text_containment s
+  | PMatchParam reqs => gen_text_match_param reqs
+  | PPhysPath val => gen_text_physical_path val
+  | PIsAuth v => gen_text_is_authenticated v
+  | PCustom i => gen_phash_custom i
+  | PThird _ ph => ph
+  | PNot q => gen_phash_not q
+  end.
+'''),
+]
+
+def _init(cls, gen, fields, ctor, sig='(l : list text) : option pred', param=None, **kw):
+    def end_fn(env):
+        args = []
+        for f, ty in fields:
+            got = env.get('self.' + f)
+            if got is None or got[1] != ty:
+                raise Problem('%s.__init__: field %s is %s at the end, expected a %s' % (cls, f, got[1] if got else 'unset', ty))
+            args.append(got[0])
+        return A('Some', [A(ctor, args)])
+    return dict(file='pyramid/predicates.py', qual=cls + '.__init__', gen=gen, sig=sig, ret=OPT('pred'),
+                params=[(None, 'selfinit'), param or (V('l'), LIST('text')), (None, ERASED)], ret_conv=lambda obj, t: None,
+                end_fn=end_fn, strings=True, raise_value=K('None'), **kw)
+
+
+# constructors of the predicate classes that normalise their value (the glue hands them the value as a tuple of str:
+# as_tuple of the model = `if not is_nonstr_iter(val): val = (val,)` of the pinned util.as_sorted_tuple)
+_INIT_FUNCS = [
+    _init('RequestMethodPredicate', 'gen_mk_request_method', [('val', LIST('text'))], 'PMethod'),
+    _init('RequestParamPredicate', 'gen_mk_request_param', [('reqs', LIST('kvo'))], 'PParam', pair_as='kvo'),
+    _init('PhysicalPathPredicate', 'gen_mk_physical_path', [('val', LIST('text'))], 'PPhysPath',
+          sig='(v : pval) : option pred', param=(V('v'), 'pval')),
+    _init('MatchParamPredicate', 'gen_mk_match_param', [('reqs', LIST('kv'))], 'PMatchParam', listcomp_ok=True),
+    _init('HeaderPredicate', 'gen_mk_header', [('val', LIST('kvo'))], 'PHeader', pair_as='hdr', catch_unmodelled=('re.error',)),
+    dict(glue='''(* GLUE (table): the factory registered under a predicate name is the constructor of its class
+   (add_default_view_predicates, pinned); constructors that are not translated stay the model's *)
+Definition gen_factory (name : text) (v : pval) : option pred :=
+  if text_eqb name nm_request_method then match as_tuple v with Some l => gen_mk_request_method l | None => None end
+  else if text_eqb name nm_request_param then match as_tuple v with Some l => gen_mk_request_param l | None => None end
+  else if text_eqb name nm_header then match as_tuple v with Some l => gen_mk_header l | None => None end
+  else if text_eqb name nm_match_param then match as_tuple v with Some l => gen_mk_match_param l | None => None end
+  else if text_eqb name nm_physical_path then gen_mk_physical_path v
+  else factory name v.
+'''),
+]
+
+FUNCS = _TEXT_FUNCS + _INIT_FUNCS + _PRED_FUNCS + [dict(glue='''(* GLUE (table): calling a predicate object runs the __call__ of its class (the constructor of the model's [pred]);
    third-party predicates are truth tables (nothing to translate); the inner call of Notted stays eval_pred *)
 Definition gen_eval_pred (rq : request) (p : pred) : bool :=
   match p with
@@ -1402,6 +1805,13 @@ Definition acceptable_texts (rq : request) (l : list text) : list text := filter
 Definition factory_of (name : text) : text := name.
 Definition find_iface (rq : request) (i : N) : option (text * list N) := find (fun loc => memN i (snd loc)) (q_lineage rq).
 Definition kw_del (k : text) (kw : kwargs) : kwargs := filter (fun e => negb (text_eqb (fst e) k)) kw.
+Definition opt_text_get (o : option text) : text := match o with Some t => t | None => [] end.
+Fixpoint starts_with (pre s : text) : bool :=
+  match pre, s with
+  | [], _ => true
+  | a :: pre', b :: s' => N.eqb a b && starts_with pre' s'
+  | _ :: _, [] => false
+  end.
 
 '''
 
@@ -1473,28 +1883,6 @@ def translate_tree(src_root, only=None):
                 trees[rel] = None
     check_bindings(trees, problems)
     return '\n'.join(out), problems, summary
-
-
-if __name__ == '__main__':
-    import sys
-    root = sys.argv[1] if len(sys.argv) > 1 and not sys.argv[1].startswith('--') else '/repo/src'
-    coq, problems, summary = translate_tree(root)
-    if '--write-fallback' in sys.argv:
-        if problems:
-            print('refusing to write a fallback with problems:', problems)
-            sys.exit(1)
-        fbs = {}
-        import re
-        for m in re.finditer(r'Definition (gen_\w+) [^\n]*:=\n  (.*?)\.\n(?=\n|\Z)', coq, flags=re.S):
-            fbs[m.group(1)] = m.group(2)
-        with open(FALLBACK, 'w') as f:
-            json.dump(fbs, f, indent=1, sort_keys=True)
-        print('wrote', FALLBACK, sorted(fbs))
-    else:
-        print(coq)
-        for p in problems:
-            print('PROBLEM:', p)
-        print(summary)
 
 
 # ------------------------------------------------------------------ class bodies and module-level bindings the table relies on
@@ -1572,3 +1960,25 @@ def check_bindings(trees, problems):
         if got != (decs, bases, stmts):
             problems.append('translator: header / class-level statements of %s in %s are %s, expected %s'
                             % (cname, rel, got, (decs, bases, stmts)))
+
+
+if __name__ == '__main__':
+    import sys
+    root = sys.argv[1] if len(sys.argv) > 1 and not sys.argv[1].startswith('--') else '/repo/src'
+    coq, problems, summary = translate_tree(root)
+    if '--write-fallback' in sys.argv:
+        if problems:
+            print('refusing to write a fallback with problems:', problems)
+            sys.exit(1)
+        fbs = {}
+        import re
+        for m in re.finditer(r'Definition (gen_\w+) [^\n]*:=\n  (.*?)\.\n(?=\n|\Z)', coq, flags=re.S):
+            fbs[m.group(1)] = m.group(2)
+        with open(FALLBACK, 'w') as f:
+            json.dump(fbs, f, indent=1, sort_keys=True)
+        print('wrote', FALLBACK, sorted(fbs))
+    else:
+        print(coq)
+        for p in problems:
+            print('PROBLEM:', p)
+        print(summary)
